@@ -97,6 +97,7 @@ pub fn slice_check(mode: Mode, order: Order, bytes: &[u8], out: &mut Outcome) {
 }
 
 /// C10 (second clause): AnyEndian produces results identical to the matching fixed spec.
+#[derive(Clone)]
 pub struct AnyVsFixed;
 impl Oracle for AnyVsFixed {
     fn check(&self, sk: &Skeleton, bytes: &[u8], out: &mut Outcome) {
